@@ -222,6 +222,9 @@ func c11CheckPathsOf(w *mon.W, keys []string, from, h int, dedup bool) {
 			w.Fail("PathsOf/input-modified", mon.D{"i": i})
 		}
 	}
+	if len(got) > 0 {
+		retainCheck(w, "PathsOf", "bmtree.PathsOf", func() uint64 { return gen.HashWords(got) })
+	}
 }
 
 func c11PathsOfStructured(w *mon.W, idx int) {
